@@ -604,7 +604,10 @@ AddrType(e) == CASE e.k \in {"sym", "mem", "idx"} -> "elem" [] e.k = "pcast" -> 
 (* declarative: byte offset from the object's symbol.  While the expression has pointer type it must stay inside the  *)
 (* object or one past it (6.5.6p8); once converted to an integer (ext) the arithmetic is plain integer arithmetic and  *)
 (* acceptance as a constant is an extension (6.6p10): the value is prescribed only if the implementation accepts it.  *)
-AV(st, v, ext, unit, sym) == [st |-> st, v |-> v, ext |-> ext, unit |-> unit, sym |-> sym]
+AV(st, v, ext, unit, sym) == [st |-> st, v |-> v, ext |-> ext, unit |-> unit, sym |-> sym, nar |-> FALSE]
+(* integer types narrower than a pointer, as targets of (T)address; "enum" is an enumerated type whose base is unsigned int *)
+NarrowTypes == {"bool", "char", "schar", "uchar", "short", "ushort", "int", "uint", "enum"}
+CastTypeOf(to) == IF to = "charp" THEN "ptr" ELSE IF to = "enum" THEN "uint" ELSE to
 RECURSIVE AddrEval(_, _, _)
 AddrEval(e, es, an) ==
   LET hi(sym) == IF sym = "arr" THEN an * es ELSE 2 * es
@@ -613,7 +616,11 @@ AddrEval(e, es, an) ==
        [] e.k = "mem" -> AV("ok", ZK(es), FALSE, es, "st")
        [] e.k = "idx" -> (LET a == ConstEval(e.a) IN
                           IF a.st # "ok" THEN AV(a.st, Z0, FALSE, es, "arr") ELSE chk(AV("ok", ZMul(a.v, ZK(es)), FALSE, es, "arr")))
-       [] e.k = "pcast" -> (LET p == AddrEval(e.p, es, an) IN IF e.to = "long" THEN [p EXCEPT !.ext = TRUE, !.unit = 1] ELSE [p EXCEPT !.unit = 1])
+       [] e.k = "pcast" -> (LET p == AddrEval(e.p, es, an) IN
+                            IF e.to = "long" THEN [p EXCEPT !.ext = TRUE, !.unit = 1]
+                            ELSE IF e.to \in NarrowTypes        \* the address does not fit: no relocation of that width exists; if the
+                                 THEN [p EXCEPT !.ext = TRUE, !.unit = 1, !.nar = TRUE]   \* implementation accepts it, the object keeps T's size
+                            ELSE [p EXCEPT !.unit = 1])
        [] e.k = "padd" -> (LET p == AddrEval(e.p, es, an)
                                c == ConstEval(e.c)
                            IN IF p.st # "ok" THEN p ELSE IF c.st # "ok" THEN [p EXCEPT !.st = c.st]
@@ -637,7 +644,7 @@ PBuild(e, es) ==
           IF a.st # "ok" THEN PB(a, es) ELSE PB(R("ok", AmpDeref(NBin("+", "ptr", Addr, Scaled(a.n, es))), a.dv), es))
     [] e.k = "pcast" ->
          (LET p == PBuild(e.p, es) IN
-          IF p.st # "ok" THEN p ELSE PB(R("ok", [k |-> "cast", t |-> (IF e.to = "long" THEN "long" ELSE "ptr"), a |-> p.n], p.dv), 1))
+          IF p.st # "ok" THEN p ELSE PB(R("ok", [k |-> "cast", t |-> CastTypeOf(e.to), a |-> p.n], p.dv), 1))
     [] e.k = "padd" ->
          (LET p == PBuild(e.p, es) IN
           IF p.st # "ok" THEN p
@@ -681,8 +688,9 @@ FoldAddress(e, es) ==
   LET b == PBuild(e, es) IN
   IF b.st # "ok" THEN b ELSE LET f == Fold(b.n) IN DataItem([f EXCEPT !.dv = @ \cup b.dv])
 AgreesAddr(s, m) ==
-  CASE s.st = "ok" /\ ~s.ext -> m.st = "ok" /\ m.sym = s.sym /\ m.n.u = COfZ(s.v)
-    [] s.st = "ok" /\ s.ext -> m.st # "trap" /\ (m.st = "ok" => (m.sym = s.sym /\ m.n.u = COfZ(s.v)))   \* may be refused, never wrong
+  CASE s.st = "ok" /\ s.nar -> m.st \notin {"trap", "ok"}       \* DataItem "ok" is an 8-byte `l $sym + off` item: never in a narrower object
+    [] s.st = "ok" /\ ~s.nar /\ ~s.ext -> m.st = "ok" /\ m.sym = s.sym /\ m.n.u = COfZ(s.v)
+    [] s.st = "ok" /\ ~s.nar /\ s.ext -> m.st # "trap" /\ (m.st = "ok" => (m.sym = s.sym /\ m.n.u = COfZ(s.v)))   \* may be refused, never wrong
     [] s.st = "ub" -> m.st # "trap"
     [] OTHER -> TRUE
 
